@@ -21,7 +21,7 @@ for p in props:
 man = dict(version=1,
            setup_cmd="make setup",
            hooks=dict(guard="JSON_C_VERIF", enable="-DJSON_C_VERIF on every harness compile (lib/fw.py); no hook is currently needed: static functions are reached by #include of the library .c file, the allocator by -Dmalloc=xmalloc renames",
-                      baseline_off_cmd="cmake --build /repo/_build && ctest --test-dir /repo/_build -j8 --timeout 900",
+                      baseline_off_cmd="(test -f /repo/_build/CMakeCache.txt || cmake -G Ninja -S /repo -B /repo/_build >/dev/null) && cmake --build /repo/_build && ctest --test-dir /repo/_build -j8 --timeout 900",
                       source_commits=[], add_only=True),
            engines=[dict(name="coq+correspondence", path="check", serves_properties=[c["property_id"] for c in checks],
                          kind_free_text="Coq 8.16 theorems about executable Gallina models (coq/theories), tied to /repo's working tree on every run by a differential correspondence between the OCaml-extracted model (ocaml/mdrv_<dom>) and a sanitizer build of the library (harness/drv_<dom>.c), plus a model-independent direct oracle per property")],
